@@ -7,7 +7,7 @@ from .common import *
 
 def gen(rng, i):
     domain = i % 4 == 3
-    c = gen_problem(rng, fail_below=(0.0 if domain else None), dirty_fail=(i % 8 == 7))
+    c = gen_problem(rng, fail_below=(0.0 if domain else None), dirty_fail=(i % 8 == 7), family=(rng.choice(SCALABLE) if i % 6 == 5 else None))
     P = c["meta"]["P"]
     lo, hi = c["meta"]["range"]
     sc = c["scalar"]
@@ -48,6 +48,8 @@ def gen(rng, i):
             seen.append(a)
     ops += [["ref", a] for a in seen]
     c["ops"] = ops
+    if i % 6 == 5:
+        rescale_case(c)         # the same history in units where all parameters are tiny in absolute terms
     return c
 
 
